@@ -65,6 +65,11 @@ class Run(object):
         self.net.set_endpoint(self.addrs[ep], True)
         self.up_times[ep] = self.lp.now()
       self.lp.timer(t).start(up)
+    for ep, t in p.get('ups2', {}).items():
+      def up2(ep=int(ep)):
+        self.net.set_endpoint(self.addrs[ep], True)
+        self.up_time = self.lp.now()
+      self.lp.timer(t).start(up2)
     if p.get('close_at') is not None:
       self.lp.timer(p['close_at']).start(self._close)
     gevent.spawn(self._traffic)
@@ -178,7 +183,7 @@ class Run(object):
       periods.append((cur, self.horizon + 1))
     self.periods = periods
     others_up = p['endpoints'] > 1
-    if p.get('downs'):
+    if p.get('downs') and not p.get('second_outage'):
       # pair histories: the per-member routing is not observable from the API; the fail-fast clause is applied by the
       # single-failure histories, here only "both reachable again => both carry traffic" is judged
       periods_for_calls = []
@@ -225,7 +230,7 @@ class Run(object):
     # resumes within one max interval (+ one traffic period) after becoming reachable
     up = getattr(self, 'up_time', None)
     if up is not None and (self.closed_at is None or self.closed_at > up + MAXI + 2.0) and up + MAXI + 2.0 < self.horizon \
-       and any(pr[0] < up for pr in periods):
+       and any(pr[0] < up <= pr[1] + EPS for pr in periods):
       slack = MAXI + 2.0 + (p.get('kernel_connect_timeout', 20.0) if p.get('mode') == 'stall' else 0.0)
       if p['endpoints'] == 1:
         reached = [r for r in self.server_log if r.get('addr') == addr and r.get('arg') and up - EPS <= r['time'] <= up + slack]
@@ -237,7 +242,7 @@ class Run(object):
                % (addr[0], addr[1], up - T0, 'no request reached it' if p['endpoints'] == 1 else 'it was not connected again', slack,
                   [round(t - T0, 2) for (t, out) in attempts if t >= up][:6]))
     # two members failing with overlap, concurrent traffic: once both are reachable again both must carry traffic
-    if p.get('downs') and len(self.up_times) == len(self.addrs):
+    if p.get('downs') and not p.get('second_outage') and len(self.up_times) == len(self.addrs):
       tstar = max(self.up_times.values()) + MAXI + 2.0
       if tstar + 10.0 < self.horizon:
         for i, a in enumerate(self.addrs):
@@ -300,6 +305,11 @@ def histories(tier):
               continue
             out.append(dict(base, up_at=u + 0.0125))
       out.append({'stack': stack, 'endpoints': n, 'down_at': None, 'up_at': None, 'horizon': 40})
+      # two outages of the same endpoint: down, reachable again (resurrected), down again, reachable again
+      for (u1, d2, u2) in ((4.0, 20.35, 40.0), (9.0, 30.35, 33.0), (4.0, 14.35, 60.0)) if tier == 'quick' else \
+                          [(u1, u1 + gap + 0.35, u1 + gap + 0.35 + out2) for u1 in (4.0, 9.0, 16.0) for gap in (8.0, 16.0, 30.0) for out2 in (3.0, 12.0, 40.0)]:
+        out.append({'stack': stack, 'endpoints': n, 'mode': 'refuse', 'down_at': 2.25, 'up_at': None, 'horizon': 160,
+                    'downs': {'0': d2}, 'ups': {'0': u1 + 0.0125}, 'ups2': {'0': u2 + 0.0125}, 'second_outage': True})
     # two members down with overlap, recovering in either order, two concurrent calls per second
     pts = [6.0, 9.0, 14.0, 22.0, 30.0] if tier == 'quick' else [6.0 + 2.5 * i for i in range(14)]
     for (da, db) in ((2.25, 4.25), (4.25, 2.25)):
